@@ -38,6 +38,11 @@ type c12Scen struct {
 	CloseInCB int `json:"close_in_cb,omitempty"`
 	// SlowTracks: the user's OnTracks callback takes a few steps of its own before it returns (Close may arrive meanwhile)
 	SlowTracks bool `json:"slow_tracks,omitempty"`
+	// Res2: a second resource whose first request meets the same fault (two routines of the client fail at about the same time)
+	Res2 string `json:"res2,omitempty"`
+	// LagTracks (Low-Latency stream): the user's OnTracks callback returns only after the server has seen the request for the
+	// third part, so that the processor is more than one part behind the downloader
+	LagTracks bool `json:"lag_tracks,omitempty"`
 }
 
 func (s c12Scen) name() string {
@@ -47,6 +52,12 @@ func (s c12Scen) name() string {
 	}
 	if s.SlowTracks {
 		cb += " slow-ontracks"
+	}
+	if s.Res2 != "" {
+		cb += " and@0" + s.Res2
+	}
+	if s.LagTracks {
+		cb += " lagging-ontracks"
 	}
 	return fmt.Sprintf("C12 %s fault=%s@%d%s closers=%d%s bound=%d nseg=%d policy=%d", s.Stream, s.Fault, s.At, s.Res, s.Closers, cb, s.Bound, s.NSeg, s.Policy)
 }
@@ -76,8 +87,12 @@ type c12State struct {
 	ontracksErr     error
 	faultDone       bool
 	faultHit        bool
-	inCallback      int  // user callbacks that have been entered and have not returned
-	runningAtEnd    bool // a user callback was still running when Wait() yielded
+	fault2Done      bool
+	nreq            int              // requests the server has seen
+	lastDTS         map[*Track]int64 // per track: decode time of the last unit delivered
+	outOfOrder      string           // a unit delivered twice or out of order
+	inCallback      int              // user callbacks that have been entered and have not returned
+	runningAtEnd    bool             // a user callback was still running when Wait() yielded
 }
 
 var errC12OnTracks = errors.New("on-tracks refused")
@@ -163,7 +178,12 @@ func c12Harness(sc c12Scen) vsched.Harness {
 			st.srv.handler = func(n int, path, rawQuery string, req *http.Request) srvResp {
 				name := path[strings.LastIndexByte(path, '/')+1:]
 				hit := n == sc.At
-				if sc.Res != "" {
+				st.nreq = n + 1
+				if sc.Res2 != "" && name == sc.Res2 && !st.fault2Done {
+					st.fault2Done = true
+					st.faultHit = true
+					hit = true
+				} else if sc.Res != "" {
 					hit = name == sc.Res && !st.faultDone
 					if hit {
 						st.faultDone = true
@@ -247,6 +267,11 @@ func c12Harness(sc c12Scen) vsched.Harness {
 					if st.ontracksErr != nil {
 						return st.ontracksErr
 					}
+					if sc.LagTracks {
+						st.inCallback++
+						vsched.ParkUntil(func() bool { return st.nreq >= 7 || st.closeCalls > 0 }, "user code inside OnTracks waits for the third part to be requested")
+						st.inCallback--
+					}
 					if sc.SlowTracks {
 						st.inCallback++
 						for k := 0; k < 3; k++ {
@@ -257,7 +282,18 @@ func c12Harness(sc c12Scen) vsched.Harness {
 					for _, tr := range tracks {
 						switch tr.Codec.(type) {
 						case *codecs.H264, *codecs.H265:
-							c.OnDataH26x(tr, func(pts, dts int64, au [][]byte) { cb() })
+							tr := tr
+							c.OnDataH26x(tr, func(pts, dts int64, au [][]byte) {
+								cb()
+								// decode times of one track increase strictly: a unit delivered twice, or out of order, shows here
+								if st.lastDTS == nil {
+									st.lastDTS = map[*Track]int64{}
+								}
+								if last, ok := st.lastDTS[tr]; ok && dts <= last && st.outOfOrder == "" {
+									st.outOfOrder = fmt.Sprintf("a video unit with decode time %d was delivered after the one with decode time %d", dts, last)
+								}
+								st.lastDTS[tr] = dts
+							})
 						case *codecs.MPEG4Audio:
 							c.OnDataMPEG4Audio(tr, func(pts int64, aus [][]byte) { cb() })
 						}
@@ -418,6 +454,9 @@ func c12Harness(sc c12Scen) vsched.Harness {
 					add("callback-after-end", fmt.Sprintf("%d user callback(s) were invoked after Wait() had yielded", st.afterEnd))
 				}
 			}
+			if st.outOfOrder != "" {
+				add("delivery-order", "units of one track reach the user each exactly once and in download order: "+st.outOfOrder)
+			}
 			outcome := fmt.Sprintf("%s|%s|%s|closed=%v|cb=%d", sc.Stream, sc.Fault, end, st.closedBeforeEnd, st.callbacks/4)
 			// tidy up: cancel whatever is still running so that the bubble can end
 			if st.c.ctxCancel != nil {
@@ -488,6 +527,28 @@ func c12Scens(tier string) []c12Scen {
 				}
 			}
 		}
+	}
+	// two routines of the client failing at about the same time (the variant's and the rendition's playlist, init segment,
+	// first segment): exactly one error comes out and everything is joined
+	for _, policy := range []int{0, 1, 2} {
+		for _, fault := range []string{"404", "neterr"} {
+			for _, pair := range [][2]string{{"r0.m3u8", "r1.m3u8"}, {"r0_init", "r1_init"}, {"r0_seg0", "r1_seg0"}, {"r0.m3u8", "r1_init"}} {
+				for _, closers := range []int{0, 1} {
+					if closers == 1 && policy != 0 {
+						continue
+					}
+					out = append(out, c12Scen{Stream: "fmp4-v+a", Fault: fault, Res: pair[0], Res2: pair[1], Closers: closers, Bound: bound, NSeg: 2, Policy: policy})
+				}
+			}
+		}
+	}
+	// Low-Latency: a processor that is more than one part behind the downloader (the user's OnTracks takes long)
+	for _, policy := range []int{0, 1, 2} {
+		out = append(out, c12Scen{Stream: "ll", Fault: "none", Closers: 0, LagTracks: true, Bound: bound, NSeg: 2, Policy: policy})
+		out = append(out, c12Scen{Stream: "ll", Fault: "none", Closers: 1, LagTracks: true, Bound: bound, NSeg: 2, Policy: policy})
+		// ... and the server holds the fourth playlist request, so that the session lasts until every queued part was delivered
+		out = append(out, c12Scen{Stream: "ll", Fault: "stall", At: 7, Closers: 0, LagTracks: true, Bound: bound, NSeg: 2, Policy: policy})
+		out = append(out, c12Scen{Stream: "ll", Fault: "stall", At: 7, Closers: 1, LagTracks: true, Bound: bound, NSeg: 2, Policy: policy})
 	}
 	// a user OnTracks callback that takes its time, Close arriving at every point of it
 	for _, policy := range []int{0, 1, 2} {
